@@ -387,20 +387,25 @@ class Rng:
 # ------------------------------------------------------------------------------------------
 
 def load_known():
-    """known_findings.json (committed, never written at run time) plus per-property fragments
-    known_findings.d/*.json (same format; merged into the single file by tools/gen_manifest.py)."""
+    """The known findings: per-property fragments known_findings.d/*.json are authoritative (they are what the
+    property's engineer maintains); known_findings.json is the single committed file generated from them by
+    tools/gen_manifest.py - entries of it that no fragment carries are kept.  Never written at run time."""
     out = []
-    kf = os.path.join(VERIF, "known_findings.json")
-    if os.path.exists(kf):
-        out += json.load(open(kf))
+    ids = set()
     d = os.path.join(VERIF, "known_findings.d")
     if os.path.isdir(d):
-        ids = {k.get("id") for k in out}
         for f in sorted(os.listdir(d)):
             if f.endswith(".json"):
                 for k in json.load(open(os.path.join(d, f))):
                     if k.get("id") not in ids:
+                        ids.add(k.get("id"))
                         out.append(k)
+    kf = os.path.join(VERIF, "known_findings.json")
+    if os.path.exists(kf):
+        for k in json.load(open(kf)):
+            if k.get("id") not in ids:
+                ids.add(k.get("id"))
+                out.append(k)
     return out
 
 
